@@ -1292,7 +1292,7 @@ def c11_extra(ctx, cases):
     v1, k1 = e2e_checks(ctx, "C11", ctx.seed + 11, n, c11_opts, "C11")
     # ... and with room options (--rooms / --rooms-file, factor / offset fields): "room fitting counts both groups", courses of ignored people
     # are never cancelled by the room stage either
-    v3, k3 = e2e_checks(ctx, "C11", ctx.seed + 12, (40 if ctx.tier == "quick" else 400), c11_opts, "C11", rooms=True, cov_key="cli_runs_rooms")
+    v3, k3 = e2e_checks(ctx, "C11", ctx.seed + 12, (70 if ctx.tier == "quick" else 500), c11_opts, "C11", rooms=True, cov_key="cli_runs_rooms")
     v1, k1 = v1 + v3, k1 + k3
     # the reserved places / fixed flag / room offset of courses with ignored people: reader correspondence
     v2, k2 = c12_extra(ctx, cases, for_c08=True)
